@@ -582,6 +582,27 @@ def _instantiate_axioms(formulas, rounds=8):
     return axioms
 
 
+def length_axioms(formulas):
+    """valid sequence facts the solver does not always find by itself:  |t| == 0  ==>  t == []"""
+    seen, out, stack = set(), [], list(formulas)
+    done = set()
+    while stack:
+        e = stack.pop()
+        if e.get_id() in seen:
+            continue
+        seen.add(e.get_id())
+        if z3.is_app(e):
+            if e.decl().kind() == z3.Z3_OP_SEQ_LENGTH:
+                t = e.arg(0)
+                if t.get_id() not in done and not z3.is_app_of(t, z3.Z3_OP_SEQ_EMPTY) and z3.is_const(t):
+                    done.add(t.get_id())
+                    out.append(z3.Implies(e == 0, t == z3.Empty(t.sort())))
+            stack.extend(e.children())
+        elif z3.is_quantifier(e):
+            stack.append(e.body())
+    return out
+
+
 # injectivity of the free constructors, stated through inverses
 def structural_axioms(formulas):
     """tup/untup and mdpair projections: instantiated for every tup(..)/mdpair(..)
